@@ -145,6 +145,26 @@ def readerStep (cfg : Cfg) (m : RawMap RK RV) (ws : List String) : Option String
        | .ok st => some (" ".intercalate (stepN (RawMap.fastNext cfg m m.fuel) (n + extra) st []).1)
        | r => some (fmtRes (fun _ => "") r))
     | _, _ => none
+  | ["retarget", n, leaf, extra] => match n.toNat?, leaf.toNat?, extra.toNat? with
+    | some n, some l, some extra =>
+      (match m.itemsStart with
+       | .ok st =>
+         (match stepN (RawMap.itemNext cfg m m.fuel) n st [] with
+          | (outs, some st1) =>
+            some (" ".intercalate (outs ++ (stepN (RawMap.itemNext cfg m m.fuel) extra { st1 with leaf := m.getLeaf l } []).1))
+          | (outs, none) => some (" ".intercalate outs))
+       | r => some (fmtRes (fun _ => "") r))
+    | _, _, _ => none
+  | ["retargetfast", n, leaf, extra] => match n.toNat?, leaf.toNat?, extra.toNat? with
+    | some n, some l, some extra =>
+      (match RawMap.fastStart cfg m with
+       | .ok st =>
+         (match stepN (RawMap.fastNext cfg m m.fuel) n st [] with
+          | (outs, some st1) =>
+            some (" ".intercalate (outs ++ (stepN (RawMap.fastNext cfg m m.fuel) extra { st1 with leaf := m.getLeaf l } []).1))
+          | (outs, none) => some (" ".intercalate outs))
+       | r => some (fmtRes (fun _ => "") r))
+    | _, _, _ => none
   | ["partialrange", lo, hi, n] => match parseBound lo, parseBound hi, n.toNat? with
     | some lo, some hi, some n =>
       (match RawMap.rangeStart cfg m lo hi with
